@@ -31,6 +31,7 @@ type pres struct {
 	class string // ok | e | re | parser-panic | panic | timeout
 	ms    []*labels.Matcher
 	reMsg string // message of the regexp syntax error (class re)
+	text  string // error text, used only to bucket the branch histogram (never compared)
 }
 
 func guard(f func() ([]*labels.Matcher, error)) pres {
@@ -46,11 +47,11 @@ func guard(f func() ([]*labels.Matcher, error)) pres {
 			var se *syntax.Error
 			switch {
 			case errors.As(err, &se):
-				ch <- pres{class: "re", reMsg: se.Error()}
+				ch <- pres{class: "re", reMsg: se.Error(), text: err.Error()}
 			case strings.Contains(err.Error(), "parser panic"):
 				ch <- pres{class: "parser-panic"}
 			default:
-				ch <- pres{class: "e"}
+				ch <- pres{class: "e", text: err.Error()}
 			}
 			return
 		}
@@ -117,6 +118,22 @@ func coqRes(p pres) string {
 		return "Panic"
 	}
 	return vh.App("Err", vh.Str(p.class))
+}
+
+// errBranch names the parser branch an error came from (histogram only: shows which model branches the generators
+// reach; error texts are never compared with the model).
+var errBranches = []string{"expected close brace", "expected opening brace", "expected label name", "expected label value",
+	"expected an operator", "expected a comma or close brace", "expected a matcher or close brace after comma", "expected a comma",
+	"expected end of input", "failed to create matcher", "invalid input", "missing end", "no matchers", "expected 1 matcher",
+	"unexpected open or close brace", "bad matcher format", "not valid UTF-8", "unescaped double quote", "error parsing regexp"}
+
+func errBranch(text string) string {
+	for _, b := range errBranches {
+		if strings.Contains(text, b) {
+			return b
+		}
+	}
+	return "other"
 }
 
 // ---------- library tables ----------
@@ -226,6 +243,9 @@ func runParse(run *vh.Run, c *Case) {
 		p := res[k]
 		obs = append(obs, vh.Pair(vh.Str(k), coqRes(p)))
 		run.Count("parse_outcome_"+k, p.class)
+		if p.class == "e" || p.class == "re" {
+			run.Count("error_branch_"+k[len(k)-2:], errBranch(p.text))
+		}
 		classes += p.class[:1]
 		// direct oracle: no parser panics or loops, on any input
 		switch p.class {
